@@ -69,6 +69,13 @@ var propDefs = map[string]*PropDef{
 		},
 		Assume: []string{"map iteration is modelled with a ghost set of delivered keys (every key delivered exactly once)"},
 	},
+	"C10": {
+		ID: "C10", Funcs: "all", Floor: 30,
+		Unmech: []string{
+			"the whole-document statement (every block of the rendered base shows the most-derived definition, to any depth) is the composition, on paper, of the proved lemmas: execution starts at the root document; block lookup walks child links from the root, appending each template's own definition at the end; the last entry runs and the rest is published as the Super chain; Super runs the last entry of its chain with the rest",
+			"invariants that mention a neighbour's field (parent.child == self) are re-checked for the objects a function writes, not for every object that refers to them",
+		},
+	},
 	"C11": {
 		ID: "C11", Kinds: []string{"effect", "callers"}, Funcs: "all", Floor: 10,
 		Unmech: []string{
